@@ -3,7 +3,7 @@
 (* Property theorems over assembled kernel bags (C02 C06 C07 C12 C13 C16), *)
 (* stated per cell; MC_Lattice enumerates the cells.                       *)
 (***************************************************************************)
-EXTENDS Kernels, Cards
+EXTENDS Kernels, Cards, Registry
 
 \* ------------------------------------------------------------------ cells
 \* scheme setting s: [fns, nfff, nfzm]   (nfzm: number of active flavours when fns = ZM-VFNS)
@@ -162,6 +162,15 @@ OutcomeXS(c, xs, tmc) == FirstBad([i \in 1..Len(XSNeeds(xs)) |-> OutcomeTMC(With
 XClasses == {"in", "zero", "negative", "above1", "belowgrid", "one"}
 Q2Classes == {"pos", "zero", "negative"}
 KinOutcome(xc, qc) == IF xc \in {"in", "one"} /\ qc = "pos" THEN "OK" ELSE "Reject:kinematics"
+
+\* registry completeness: every class the assembly of ANY cell names is in the class table (so no kernel the runner can
+\* use escapes the per-kernel checks C03 / C18 / C01), or is a named empty / missing class
+KindName(k) == k
+RegistryComplete(c) ==
+  LET pc == ProcClass(c.ew.proc) IN
+  ModuleExists(c.kind, pc) =>
+    Keys(Collect(c)) \subseteq (ClassKeys(c.kind, pc) \cup EmptyKeys(c.kind, pc) \cup MissingKeys(c.kind, pc))
+\* and every order a kernel can be asked for is defined by its class or intentionally absent (None): orders are 0..pto
 
 \* every key the assembly names is either defined or leads to an explicit rejection; every
 \* weight is a rational with positive denominator (no division by zero in the assembly)
